@@ -1,13 +1,13 @@
 """Per-property manifest texts."""
 CHECKS = {
     "C07": {
-        "text": "Sem.tla's functional model family F (exogenous noise shared across worlds) gives every conjunction of counterfactual atoms its probability (multi-world terms, PTermMulti); CFMachine.tla model-checks the family against the axioms of structural counterfactuals (effectiveness, composition, exclusion, normalisation) and against the ID reference on every 3-node ADMG. id_star is run on a fixed TLC-generated family of events (CFGen.tla: every single atom and a graph-dependent slice of all two-atom conjunctions, <= 2 signed subscripts) and TLC validates the outcome: an expression must equal P(event) on every base assignment under a reading the event permits (CF.tla Readings), Zero only for impossible events, Unidentifiable accepted, anything else rejected.",
+        "text": "Sem.tla's functional model family F (exogenous noise shared across worlds) gives every conjunction of counterfactual atoms its probability (multi-world terms, PTermMulti); CFMachine.tla model-checks the family against the axioms of structural counterfactuals (effectiveness, composition, exclusion, normalisation) and against the ID reference on every 3-node ADMG. id_star is run on a fixed TLC-generated family of events (CFGen.tla: every single atom, a graph-dependent slice of all two-atom conjunctions, a slice of the three-atom events that span three worlds, every reflexive single atom and a slice of pairs with one; <= 2 signed subscripts) and TLC validates the outcome: an expression must equal P(event) on every base assignment under a reading the event permits (CF.tla Readings), Zero only for impossible events, Unidentifiable accepted, anything else rejected.",
         "ref": "DESIGN.md section 4/C07, 14.4",
         "note": "Design level: IDStar.tla is a reference ID* (make-cg with Lemma 24/25, lines 1-9, sound partial version) model-checked against family F on all ordered 3-node ADMGs x (single atoms + a slice of pairs); every record's verdict also says whether the reference answers, and the evidence cross-tabulates y0's outcome with it. The implementation has known unrepaired defects (about a third of the two-atom events): failing inputs are listed by (graph, event) -> semantic signature in known_findings_C07.json; a listed input failing with a different signature or any unlisted input failing is a violation. Family fixed, independent of VERIF_SEED. 3-node graphs only.",
         "technique": "TLA+ specification of counterfactual semantics (functional SCMs) model-checked by TLC; TLC-generated events; trace validation of implementation outputs by TLC; known findings keyed by input and semantic signature",
     },
     "C08": {
-        "text": "As C07 for idc_star: every split of a TLC-generated 2-/3-atom conjunction into (outcomes, conditions); TLC validates value = P(outcomes and conditions)/P(conditions) where the condition is possible, Zero only for impossible joint events, ValueError exactly for impossible conditions, Unidentifiable accepted.",
+        "text": "As C07 for idc_star: every split of a TLC-generated 2-/3-atom conjunction into (outcomes, conditions); TLC validates value = P(outcomes and conditions)/P(conditions) where the condition is possible, Zero only for impossible joint events, ValueError exactly for impossible conditions, Unidentifiable accepted. IDStar.tla holds a reference ID* and IDC* (make-cg, lines 1-9 / 1-5 with rule 2 in the counterfactual graph), model-checked Sound / Vocab / UndefOnlyIfImpossible against family F; the thorough tier cross-tabulates y0's outcome with the reference's.",
         "ref": "DESIGN.md section 4/C08, 14.4",
         "note": "Known findings by (input, signature) in known_findings_C08.json (IDC* inherits ID*'s and Expression.conditional's defects). Fixed family, 3-node graphs.",
         "technique": "TLA+ counterfactual semantics + TLC trace validation; known findings keyed by input and semantic signature",
@@ -19,7 +19,7 @@ CHECKS = {
         "technique": "TLA+ multi-domain counterfactual semantics; TLC-generated events; trace validation by TLC; known findings keyed by input and semantic signature",
     },
     "C18": {
-        "text": "make_counterfactual_graph is run on TLC-generated conjunctions of 1-3 counterfactual atoms over every second (thorough: every) 3-node ADMG; TLC validates in the functional family F that the relabelled event has the same probability as the original on every base assignment, that 'inconsistent' is reported only for events of probability zero, and (MixedGraph.tla on the serialised graph) that the returned graph is acyclic, equals the ancestors of the relabelled event's variables and contains them. CFMachine.tla model-checks the family F itself.",
+        "text": "make_counterfactual_graph is run on TLC-generated conjunctions of 1-3 counterfactual atoms over every second (thorough: every) 3-node ADMG; TLC validates in the functional family F that the relabelled event has the same probability as the original on every base assignment, that 'inconsistent' is reported only for events of probability zero, and (MixedGraph.tla on the serialised graph) that the returned graph is acyclic, equals the ancestors of the relabelled event's variables and contains them. CFMachine.tla model-checks the family F itself. Besides slices of all 1-3 atom events the family contains every merge-chain event of each graph (CF.tla MergeChainEvents: one variable in three worlds that differ in a causally irrelevant subscript).",
         "ref": "DESIGN.md section 4/C18",
         "note": "3-node graphs, <= 2 signed subscripts per atom, no reflexive subscripts; seeded three-atom events on top of the fixed family.",
         "technique": "TLA+ counterfactual semantics (functional SCMs) model-checked by TLC; trace validation of implementation outputs by TLC",
@@ -31,13 +31,13 @@ CHECKS = {
         "technique": "TLA+ transcription of the definitions + counterfactual semantics; trace validation by TLC; known findings keyed by input and semantic signature",
     },
     "C05": {
-        "text": "The multi-domain semantics is part of the specification: ID.tla derives the selection diagram (TransportNodes) and TV.tla builds, for every recorded problem, a family of generic SCMs in which source domain k shares every mechanism with the target except at the transport nodes; PP[pi*] terms are evaluated in the target, PP[pi_k][Z'] terms in domain k under do(Z'). Every estimand identify_target_outcomes returns on TLC-generated problems (graph x query x 0-3 domains (Z_k, W_k)) is validated by TLC against P*(y|do x) on all assignments; without a source domain the outcome class must agree with the ID oracle (TianOK); exceptions and mutation of the caller's graph are rejected.",
+        "text": "The multi-domain semantics is part of the specification: ID.tla derives the selection diagram (TransportNodes) and TV.tla builds, for every recorded problem, a family of generic SCMs in which source domain k shares every mechanism with the target except at the transport nodes; PP[pi*] terms are evaluated in the target, PP[pi_k][Z'] terms in domain k under do(Z'). Every estimand identify_target_outcomes returns on TLC-generated problems (graph x query x 0-3 domains (Z_k, W_k)) is validated by TLC against P*(y|do x) on all assignments; without a source domain the outcome class must agree with the ID oracle (TianOK); exceptions and mutation of the caller's graph are rejected. TRSO.tla is the reference algorithm (lines 1-11, model-checked Sound / ReducesToID / Vocab); its TRSOSteps / GenSpec enumerate every single-domain 4-node problem on which the reference recurses again inside a source domain after line 10, all of which are replayed.",
         "ref": "DESIGN.md section 4/C05",
         "note": "Design level: TRSO.tla (reference TRSO, lines 1-11) is model-checked sound, reducing to ID without domains and vocabulary-preserving on all ordered 3-node ADMGs x queries x 20 single-domain configurations (thorough: plus two-domain configurations). Conformance: 3-node ADMGs exhaustively over graphs and queries with seeded domain configurations, seeded 4-node problems. No completeness claim beyond the no-domain case.",
         "technique": "TLA+ specification of multi-domain SCM semantics and selection diagrams; TLC-generated problems; trace validation of implementation outputs by TLC",
     },
     "C16": {
-        "text": "LVDag.tla defines tagged DAGs, the ADMG<->LV-DAG conversions, the latent projection by its path definition and Evans' four rules; LVMachine.tla applies any applicable rule in any order and TLC model-checks, on every tagged DAG with <= 4 nodes and every ADMG <= 3 nodes with extra latents, that the projection is invariant, observed nodes are kept, a fully simplified DAG reads as the projection of the start, and m-separation in the projection equals d-separation in the DAG. TLC prints every start state with its projection; simplify_latent_dag (observed kept, idempotent, read-off ADMG = projection), evans_simplify(G, latents=L) and the ADMG->LV-DAG->ADMG round trip (isolated nodes included) are replayed under 2-3 insertion orders and compared.",
+        "text": "LVDag.tla defines tagged DAGs, the ADMG<->LV-DAG conversions, the latent projection by its path definition and Evans' four rules; LVMachine.tla applies any applicable rule in any order and TLC model-checks, on every tagged DAG with <= 4 nodes and every ADMG <= 3 nodes with extra latents, that the projection is invariant, observed nodes are kept, a fully simplified DAG reads as the projection of the start, and m-separation in the projection equals d-separation in the DAG. TLC prints every start state with its projection; simplify_latent_dag (observed kept, idempotent, read-off ADMG = projection), evans_simplify(G, latents=L) and the ADMG->LV-DAG->ADMG round trip (isolated nodes included; default and non-default prefix / start / tag options, the LV-DAG itself compared with ToLV) are replayed under 2-3 insertion orders and compared.",
         "ref": "DESIGN.md section 4/C16",
         "note": "Exhaustive for tagged DAGs <= 4 nodes (thorough: 5), ADMGs <= 4 nodes x every latent subset; seeded 5-/6-node DAGs. The identifiability consequence rests on C02's oracle being a function of the ADMG; taheri_design is not replayed.",
         "technique": "TLA+ state machine of Evans' rules model-checked by TLC against the path definition of latent projection; TLC-generated start states and projections replayed into the implementation",
@@ -61,7 +61,7 @@ CHECKS = {
         "technique": "TLA+ calculator machine as generator; print/parse round trip of the implementation validated as a trace by TLC against the denotational semantics",
     },
     "C13": {
-        "text": "Every operator of the DSL (*, /, marginalize, conditional, normalize_marginalize, Fraction.simplify, Sum.simplify, chain_expand with and without reordering, fraction_expand, bayes_expand, contract, recursive_contract) is an action of ExprCalc.tla; constructors change Math(m), rewrite helpers must leave it unchanged. The reference rewrites (RefChain for every child order, RefFrac, RefBayes) and the normalisation of cond are model-checked by TLC on all atoms; every generated term is executed with the real operator and TLC validates that the returned object denotes Math(m) on all assignments, that chain expansions have single-child factors, and that an exception occurs only where the quantity is undefined everywhere. A named deviation DevMath attributes the one known finding by call site.",
+        "text": "Every operator of the DSL (*, /, marginalize, conditional, normalize_marginalize, Fraction.simplify, Sum.simplify, chain_expand with and without reordering, fraction_expand, bayes_expand, contract, recursive_contract) is an action of ExprCalc.tla; constructors change Math(m), rewrite helpers must leave it unchanged. The reference rewrites (RefChain for every child order, RefFrac, RefBayes) and the normalisation of cond are model-checked by TLC on all atoms; every generated term is executed with the real operator and TLC validates that the returned object denotes Math(m) on all assignments, that chain expansions have single-child factors (ranges of a marginalisation may name a variable the summand does not mention), and that an exception occurs only where the quantity is undefined everywhere. A named deviation DevMath attributes the one known finding by call site.",
         "ref": "DESIGN.md section 4/C10-C13, 5.2",
         "note": "Known finding cond-bound-vars is reported (KNOWN-FINDING) and everything else gated. Depth-1 exhaustive over 19 atoms, seeded slice of depth 2 and random walks to depth 3-5.",
         "technique": "TLA+ state machine with one action per operator, TLC model checking of the reference identities, TLC-generated behaviours replayed into the implementation and validated by TLC; named implementation-shaped deviation",
@@ -73,7 +73,7 @@ CHECKS = {
         "technique": "TLA+ transcription of the lemmas model-checked against SCM semantics by TLC; trace validation of implementation outputs by TLC",
     },
     "C01": {
-        "text": "Sem.tla gives the SCM semantics (generic stochastic models compatible with a mixed graph, evaluated in GF(32749)) and the denotation Den of y0's expression language; ID.tla is a reference ID carrying the current distribution as a term. TLC model-checks the reference sound against the semantics on every 3-node ADMG and query (IDMachine: Sound). Every TLC-generated (G,X,Y) is then run through the real identify_outcomes/identify and the returned estimand is validated by TLC as a trace (TV.tla): Den(estimand) must equal P(Y|do X) by truncated factorisation at every value assignment of every variable (so a dependence on a free variable outside X and Y is a failure) for 2-3 independent generic models.",
+        "text": "Sem.tla gives the SCM semantics (generic stochastic models compatible with a mixed graph, evaluated in GF(32749)) and the denotation Den of y0's expression language; ID.tla is a reference ID carrying the current distribution as a term. TLC model-checks the reference sound against the semantics on every 3-node ADMG and query (IDMachine: Sound). Every TLC-generated (G,X,Y) is then run through the real identify_outcomes/identify and the returned estimand is validated by TLC as a trace (TV.tla): Den(estimand) must equal P(Y|do X) by truncated factorisation at every value assignment of every variable (so a dependence on a free variable outside X and Y is a failure) for 2-3 independent generic models. Families: all 3-node ADMGs x queries, seeded 4-/5-node samples, and every query of the two-chain 5-node family P5 on which the reference applies line 7 twice on one path (ID.tla L7Depth); driver shards run under PYTHONHASHSEED 0-3.",
         "ref": "DESIGN.md section 4/C01",
         "note": "Exhaustive on all 200 three-node ADMGs x 12 queries; seeded samples of the 4096 ordered four-node ADMGs x 50 queries and of five-node graphs; binary variables (one ternary, clique latents in thorough). Polynomial identity testing: a wrong estimand escapes with probability <= deg/32749 per model. Trusted: TLC, Sem.tla.",
         "technique": "TLA+ specification of SCM semantics + reference algorithm, TLC model checking (soundness invariant), trace validation of the implementation's outputs by TLC",
@@ -103,19 +103,19 @@ CHECKS = {
         "technique": "TLA+ state machine + TLC model checking; TLC-generated behaviours replayed into the implementation (spec-to-code conformance)",
     },
     "C04": {
-        "text": "Separation.tla defines m-separation three independent ways (open simple paths; ancestral moral graph of the canonical latent DAG; sigma-reachability over (node, arrival mark)); TLC proves them equal and symmetric on every ADMG with <= 4 nodes (SepMachine MC) and prints each graph's verdict table; the real are_d_separated is then replayed for every ordered pair, every conditioning set (with duplicates/shuffled conditions) and 2 insertion orders against those tables, and the returned judgement's fields are checked for canonical form.",
+        "text": "Separation.tla defines m-separation three independent ways (open simple paths; ancestral moral graph of the canonical latent DAG; sigma-reachability over (node, arrival mark)); TLC proves them equal and symmetric on every ADMG with <= 4 nodes (SepMachine MC) and prints each graph's verdict table; the real are_d_separated is then replayed for every ordered pair, every conditioning set (with duplicates/shuffled conditions) and 3 scenarios against those tables (sorted insertion; SepMachine's Grow action replayed on ONE object - query all, add an edge in place, query all again, action property GrowAntiMonotone model-checked; observed nodes named like the library's latent parents u_0, u_1, ...), and the returned judgement's fields are checked for canonical form. Families: all 3-node ADMGs, all topologically numbered 4-node ADMGs, all 1024 topologically numbered 5-node DAGs, seeded 5-node ADMGs.",
         "ref": "DESIGN.md section 4/C04",
         "note": "Exhaustive on all 200 three-node and all 4096 topologically numbered four-node ADMGs (thorough: all 34752 labelled ones), seeded samples on 5 nodes. Trusted: TLC and the path definition MSepPath.",
         "technique": "TLA+ specification of separation, TLC model checking of definition equivalence, TLC-generated verdict tables replayed against the implementation",
     },
     "C15": {
-        "text": "From TLC's m-separation tables (Separation.tla: SepTable, MinSizes) the set of separable pairs and the minimum separator size of each pair are derived for every ADMG <= 4 nodes; get_conditional_independencies is replayed for 7 size limits x 2 built-in policies x 2 insertion orders and every returned judgement must be a true separation of the table, canonical, of minimum size, one per pair, with exactly the pairs the limit allows.",
+        "text": "From TLC's m-separation tables (Separation.tla: SepTable, MinSizes) the set of separable pairs and the minimum separator size of each pair are derived for every ADMG <= 4 nodes; get_conditional_independencies is replayed for 7 size limits x 2 built-in policies x 3 scenarios (sorted insertion; Grow history on one object; latent-like node names), also on all 1024 topologically numbered 5-node DAGs, and every returned judgement must be a true separation of the table, canonical, of minimum size, one per pair, with exactly the pairs the limit allows.",
         "ref": "DESIGN.md section 4/C15",
         "note": "The size limit is accepted as inclusive or exclusive (two-sided bound); exhaustive <= 4 nodes, sampled at 5. Trusted: TLC, MSepPath.",
         "technique": "TLA+ specification + TLC-generated oracle tables replayed against the implementation",
     },
     "C20": {
-        "text": "SigmaSep (walk-based sigma-separation with strongly connected components) is model-checked by TLC to coincide with m-separation on every ADMG <= 4 nodes and to be symmetric and adjacency-respecting on every mixed graph with 3 nodes; are_sigma_separated is replayed for every pair in both argument orders and every conditioning set against TLC's tables (agreement on ADMGs; symmetry and adjacency on cyclic graphs). A literal TLA+ transcription of y0's path criterion (SigmaY0Sep) names the known deviation so that its failures are attributed by call site.",
+        "text": "SigmaSep (walk-based sigma-separation with strongly connected components) is model-checked by TLC to coincide with m-separation on every ADMG <= 4 nodes and to be symmetric and adjacency-respecting on every mixed graph with 3 nodes; are_sigma_separated is replayed for every pair in both argument orders and every conditioning set against TLC's tables (agreement on ADMGs; symmetry and adjacency on cyclic graphs), under 3 scenarios (sorted insertion; Grow history on one object; latent-like node names). A literal TLA+ transcription of y0's path criterion (SigmaY0Sep) names the known deviation so that its failures are attributed by call site.",
         "ref": "DESIGN.md section 4/C20, 5.2",
         "note": "Known finding sigma-collider-depth-1 (needs >= 5 nodes) is reported, everything else is gated. Exhaustive <= 4 nodes (ADMG) / 3 nodes (cyclic), fixed 64-graph 5-node family, seeded 5-node samples in thorough.",
         "technique": "TLA+ specification + TLC model checking + replay of TLC verdict tables; named implementation-shaped deviation for the known finding",
